@@ -43,9 +43,11 @@ def check_case(acc, spec, pname, subs, mode, var, tier, max_execs=20000):
     cache = {}
     bound = 1 if tier == "quick" else 2
     base = {"spec": SC.short(spec), "partition": pname, "parts": [s["doms"] for s in subs], "mode": mode, "var": var}
-    for faults in fault_plans(lengths, 1 if tier == "quick" else 2):
-        def run_fn(prefix, _f=faults):
-            return M.run_parent(solvers, mode, var, cache, _f, prefix, "eager")
+    plans = [(f, False) for f in fault_plans(lengths, 1 if tier == "quick" else 2)]
+    plans += [(f, True) for f in fault_plans(lengths, 1)]  # the death happens in the second run of a reused solver object
+    for faults, reuse in plans:
+        def run_fn(prefix, _f=faults, _r=reuse):
+            return M.run_parent(solvers, mode, var, cache, _f, prefix, "eager", reuse=_r)
 
         classes = "+".join(sorted({crash_class(j, lengths[w]) for w, j in faults}))
         acc.add("crash_classes", classes)
@@ -53,13 +55,13 @@ def check_case(acc, spec, pname, subs, mode, var, tier, max_execs=20000):
         for res in M.explore(run_fn, bound, max_execs):
             acc.c["schedules"] += 1
             acc.c["deliveries"] += sum(1 for e in res.events if e.startswith("get"))
-            w = dict(base, faults=[list(f) for f in faults], schedule=res.events[-12:], choices=[t[2] for t in res.trace])
+            w = dict(base, faults=[list(f) for f in faults], reuse=reuse, schedule=res.events[-12:], choices=[t[2] for t in res.trace])
             if getattr(res, "capped", False):
                 acc.caps.append(f"schedule cap hit on {spec['tag']} {pname}")
             key0 = "solve" if mode == "solve" else "optimise"
             if res.hang:
                 kind = "blocking-get" if res.hang.startswith("Deadlock") else "endless-polling"
-                acc.violation(f"{key0}:{kind}:worker-death", dict(w, hang=res.hang),
+                acc.violation(f"{key0}:{kind}:worker-death{':reused-solver' if reuse else ''}", dict(w, hang=res.hang),
                               "a worker died before its completion marker and the caller's call never returns")
                 continue
             if any("observed terminated" in e for e in res.events):
@@ -215,7 +217,7 @@ def replay(entry):
                 s["doms"] = doms
                 subs.append(s)
             solvers = mpcases.make_solvers(subs)
-            res = M.run_parent(solvers, w["mode"], w["var"], {}, [tuple(f) for f in w["faults"]], w["choices"], "eager")
+            res = M.run_parent(solvers, w["mode"], w["var"], {}, [tuple(f) for f in w["faults"]], w["choices"], "eager", reuse=w.get("reuse", False))
             print("replay:", w["partition"], w["mode"], "faults", w["faults"], res.events[-8:], "-> hang", res.hang, "error", res.error)
             rc = rc or (1 if res.hang else 0)
     return rc
